@@ -45,6 +45,8 @@ PROPS["C04"] = _tower("per-tracker theorems for each of the four loops + block-l
 PROPS["C06"] = _tower("recover_pk is an input (the signer); the byte-exact request messages are recomputed by the harness independently of the tower's code. History level: every appointment row of every reachable state was put there by an authenticated add_appointment of its owner; non-interference of whole request histories is a theorem (requests_of_others_change_nothing: the per-operation frames composed); blocks act on every user's data by design and are covered by the block-level theorems + monitors.")
 PROPS["C07"] = _tower("conservation proved in differential form per primitive, memory = disk for every history; the SUM form is a theorem for whole histories in the form available + occupied <= granted (ghost count of accepted registrations since the user's current record began; Lemmas/TowerSlots: no step adds more than it grants, a refund returns exactly what the deleted rows occupied); the forfeited amount is the difference and is not named event by event. The monitor recomputes the sum from the real tables after every operation. f32 formula proved exact below 2^24 and compared exhaustively with the real function.")
 PROPS["C07"]["components"] = ["tower", "slots"]
+# a request racing with the block at which its user's subscription runs out: the interleavings of the conc component
+PROPS["C06"]["components"] = ["tower", "conc"]
 # restarts that replay blocks (the recorded block lags behind a long poll) are explored by the crash component
 PROPS["C02"]["components"] = ["tower", "crash"]
 PROPS["C08"] = _tower("signature scheme abstract here (C17); byte layouts in C16.")
